@@ -1,8 +1,9 @@
 \* Project.tla, INTENDED DESIGN (Dev = {}): every C19 / C18 / C17 property is checked by TLC.
 \* Constants: 3 resolver fields (Query.f1, Query.f2, T.g) x 2 schema files x 2 edit records (body b1 + doc d1 +
 \* named results / body b2c (with /* */) + template doc) x 2 helper tokens x 2 import tokens (alias, dot) x both
-\* resolver layouts x histories <= 6, start = freshly generated empty project.
-\* Measured: 197 188 distinct / 486 181 generated states, depth 7, 26-40 s with 3-4 workers. -coverage 1: no action 0.
+\* resolver layouts x root struct customisation {rf} x histories <= 6, start = freshly generated empty project.
+\* Measured: 266 948 distinct / 657 984 generated states, depth 7, 49 s with 3 workers (before the root struct:
+\* 197 188 / 486 181). -coverage 1: no action 0.
 INIT Init
 NEXT Next
 CONSTANTS
